@@ -785,6 +785,12 @@ func (e *Eng) evalBuiltin(st *State, name string, call *ast.CallExpr) []*Val {
 		}
 		return []*Val{scalar(fmt.Sprintf("(%s %s %s)", fn, a.T, b.T), "Int", e.info.TypeOf(call))}
 	}
+	if name == "close" && len(call.Args) == 1 {
+		// closing a channel: a ghost event like a send (anchor `chanclose <channel text>`, counter chanclose)
+		e.eval(st, call.Args[0])
+		e.chanEvent(st, "chanclose", call.Args[0], call.Pos())
+		return nil
+	}
 	e.gap("builtin %s abstracted", name)
 	if t := e.info.TypeOf(call); t != nil {
 		if _, isTuple := t.(*types.Tuple); !isTuple {
@@ -808,4 +814,25 @@ func (e *Eng) recObj() types.Object {
 		e.recVar = types.NewVar(token.NoPos, nil, "panicked", types.Typ[types.Bool])
 	}
 	return e.recVar
+}
+
+// chanEvent records a channel operation that has no call syntax (receive, close) as a ghost event: its counter is
+// incremented and the clauses anchored at `<kind> <channel text>` are evaluated (requires) or applied (ghost).
+func (e *Eng) chanEvent(st *State, kind string, ch ast.Expr, pos token.Pos) {
+	key := kind + " " + e.srcFull(ch)
+	if e.con != nil {
+		if cls, ok := e.con.At[key]; ok {
+			e.con.atUsed[key] = true
+			for _, cl := range cls {
+				switch cl.Kind {
+				case "requires":
+					g := e.evalSpec(st, cl.Expr, e.specEnvFromState(st), e.oldEnv)
+					e.oblige(st, "at", key+" requires "+cl.Src, g.T, pos)
+				case "ghost":
+					st.vars[e.ghosts[cl.Name]] = e.evalSpec(st, cl.Expr, e.specEnvFromState(st), e.oldEnv)
+				}
+			}
+		}
+	}
+	st.counters[kind] = fmt.Sprintf("(+ %s 1)", counterOf(st, kind))
 }
